@@ -33,6 +33,7 @@ def run_one(d):
         if b.returncode != 0:
             return name, "MUTANT-DOES-NOT-COMPILE", b.stderr.strip()[:300]
         out_dir = tempfile.mkdtemp(prefix="gvc-mut-smt-")
+        vd = None
         args = [os.path.join(VERIF, "bin", "gvc"), cmd[0], "-repo", wt]
         if cmd[0] == "check":
             vd = tempfile.mkdtemp(prefix="gvc-mut-verif-")
@@ -43,6 +44,8 @@ def run_one(d):
         args += cmd[1:]
         p = subprocess.run(args, env=env, capture_output=True, text=True)
         shutil.rmtree(out_dir, ignore_errors=True)
+        if vd:
+            shutil.rmtree(vd, ignore_errors=True)
         fails = [l for l in (p.stdout + p.stderr).splitlines() if l.startswith("FAIL") or l.startswith("VIOLATION") or "failed obligation" in l]
         hit = [l for l in fails if expect in l]
         if hit:
